@@ -211,7 +211,7 @@ def run_case(case):
             else:
                 spec = gen.gen_project(rng, prob={"res": 0.6, "hold": 0.5, "hold_defines": 0.7,
                                                   "defines": 0.4})
-                phases = gen.gen_history(rng, spec, nphase=rng.randint(0, 2))
+                phases = gen.gen_history(rng, spec, nphase=rng.randint(0, 2), breaks=0.2)
                 cfgs = [{"njob": rng.choice([1, 2, 3, 4]),
                          "resources": rng.choice(["cpu:2,gpu:2", "cpu:2,gpu:1", "cpu:3", "cpu:1,gpu:1", None]),
                          "keep_going": rng.random() < 0.3,
